@@ -30,6 +30,7 @@ func init() {
 			witnessFamily("C15"),
 			{Name: "tok", N: tierN(300000, 15000000), Run: c15Tok},
 			{Name: "typed", N: tierN(80000, 4000000), Run: c15Typed},
+			{Name: "regexargs", N: func(string) int { return len(c15Subjects) * len(c15Patterns) }, Run: c15RegexArgs},
 		},
 	})
 }
@@ -94,6 +95,9 @@ func (c *Case) c15Exec(src string, d *xdoc.Doc, ctx *xdoc.Node) {
 }
 
 func exoticDoc(g *xgen.G) *xdoc.Doc {
+	if g.Intn(5) == 0 {
+		return g.DeepTree() // 10-33 levels: depth-indexed engine state
+	}
 	o := xgen.DefaultTree()
 	o.MaxDepth, o.MaxFan = 3, 4
 	o.TextVals = append(append([]string(nil), xgen.ExoticTextVals...), "é", "中文", "a\u00a0", "x\v", "\f")
@@ -135,6 +139,60 @@ func c15Tok(c *Case) {
 	src := g.TokExpr(1+g.Intn(3), false)
 	c.c15Exec(src, d, ctx)
 	c.SampleEvery(9001, func() interface{} { return map[string]interface{}{"family": "tok", "expr": src, "ctx": ctx.Label()} })
+}
+
+// c15RegexArgs: matches()/replace() over EVERY combination of subject x pattern x replacement from pools of
+// boundary shapes (empty, capture groups 0..11, '$' at the end / doubled / before a letter, back-slashes, patterns
+// that do not compile), given as literals and taken from the document (where nothing is checked at compile time):
+// whatever the data, the outcome is a value or a deliberate complaint, never a Go runtime error.
+var c15Subjects = []string{"", "a", "ab", "abcabc", "aaa", "$1", "a$", "x y", "é中", "\\", "(a)", "1.5"}
+var c15Patterns = []string{"", "a", "(a)", "(a)(b)", "(.)", "a*", "^", "$", "(a|b)*", "((a)(b)(c))", "(.)(.)(.)(.)(.)(.)(.)(.)(.)(.)(.)", "[a", "(", "\\", "a{2", "(?i)A", "é", "x|", "()", "(a)|(b)"}
+var c15Templates = []string{"", "x", "$", "$$", "$1", "$1$", "x$", "$2", "$0", "$10", "$11", "$12$", "${1}", "${", "$a", "\\", "\\$", "$1\\", "$-", "$ ", "$1$2$3$4$5$6$7$8$9$10$11$"}
+
+func c15RegexArgs(c *Case) {
+	subj := c15Subjects[c.Index%len(c15Subjects)]
+	pat := c15Patterns[c.Index/len(c15Subjects)]
+	q := func(v string) string {
+		if strings.Contains(v, "'") {
+			return `"` + v + `"`
+		}
+		return "'" + v + "'"
+	}
+	d := xdoc.NewDoc()
+	r := d.Root.AddElem("", "r", "")
+	it := r.AddElem("", "i", "")
+	it.AddAttr("", "s", "", subj)
+	it.AddAttr("", "p", "", pat)
+	it.AddText(subj)
+	for k, t := range c15Templates {
+		r.AddElem("", "t", "").AddAttr("", "v", "", t)
+		_ = k
+	}
+	d.Finish()
+	ctx := it
+	forms := []string{
+		"matches(" + q(subj) + ", " + q(pat) + ")", "matches(@s, @p)", "matches(., string(@p))", "//i[matches(@s, @p)]", "matches(@s, concat(@p, ''))",
+	}
+	for k, t := range c15Templates {
+		forms = append(forms,
+			"replace("+q(subj)+", "+q(pat)+", "+q(t)+")",
+			fmt.Sprintf("replace(@s, @p, /r/t[%d]/@v)", k+1),
+			fmt.Sprintf("replace(., %s, /r/t[%d]/@v)", q(pat), k+1),
+			fmt.Sprintf("replace(@s, string(@p), %s)", q(t)),
+		)
+	}
+	forms = append(forms, "//t[replace(../i/@s, ../i/@p, @v) = '']", "count(//t[matches(@v, ../i/@p)])")
+	for _, src := range forms {
+		c.c15Exec(src, d, ctx)
+		if c.Violated() {
+			return
+		}
+	}
+	c.Count("regexargs")
+	c.Nontrivial(fmt.Sprintf("regexargs|%q|%q", subj, pat))
+	c.SampleEvery(23, func() interface{} {
+		return map[string]interface{}{"family": "regexargs", "subject": subj, "pattern": pat, "templates": len(c15Templates), "expressions": len(forms)}
+	})
 }
 
 // c15Typed: every function applied to every kind of argument, systematically (function x argument-kind grid).
